@@ -50,6 +50,62 @@ PROPS["C16"] = dict(
     assumptions=[],
 )
 
+PROPS["C05"] = dict(
+    title="Access is granted exactly when the Matter access-control algorithm grants it",
+    scope="Compositional: Access::is_ok, subject classification (node id / CAT identifier+version), AccessorSubjects::{add_catid,matches}, "
+          "AclEntry::{match_accessor,match_access_desc,allow}, Fabric::allow (exists-entry), Fabrics::allow (PASE grant, own-fabric dispatch, "
+          "non-existent fabric denied) each equal a reference predicate written from the statement, for all field values; callers are checked "
+          "against callee contracts (stubs with ghost records). Fabric separation and mode separation are named corollaries.",
+    verus=[],
+    functions=[],
+    trusted=["privilege values restricted to the six an entry can hold for the statement-level is_ok contract (robustness clauses for arbitrary bits)",
+             "operation is READ or WRITE (the only values built at the three AccessReq::new call sites)",
+             "fabric indices in the table are distinct (kept by add_with_post_init)"],
+    out_of_reach=["Accessor::for_session (needs a Session value)", "group membership glue (Accessor::is_endpoint_accessible, AccessReq::allow) only bounded: <=1 fabric, <=2 groups x 2 endpoints"],
+    assumptions=[],
+)
+
+PROPS["C06"] = dict(
+    title="Every Interaction Model operation is mediated by the access check",
+    scope="Gates: Cluster::{check_attr_access, check_cmd_access, check_event_access} return Ok only through exactly one access check about this very "
+          "request, honour timed-only and fabric-scoped declarations and report the prescribed status otherwise (AccessReq::allow stubbed by its C05 "
+          "contract). PathExpander step contracts are bounded stand-ins (small fixed node) and are not counted as proved.",
+    verus=[],
+    functions=[],
+    trusted=["AccessReq::allow by contract (C05)", "callers pass ids taken from the cluster's own element lists (im/expand.rs:536, dm/types/node.rs:86,108)"],
+    out_of_reach=["handler invocation, timed-window expiry, fabric-sensitive filtering (async IM layer)", "node composition changing between chunks"],
+    assumptions=[],
+)
+
+PROPS["C09"] = dict(
+    title="Reliable messaging delivers each message at most once and reports the truth",
+    scope="Safety core as step contracts: RetransEntry::{new,pre_send} (budget: Ok iff attempts left, Err(TxTimeout) once used up, nothing else changes), "
+          "ReliableMessage::{pre_send,post_recv,flags} (no success after give-up; an ack for another counter changes nothing; a matching ack clears the "
+          "retransmission; a reliable message is acknowledged with exactly its counter), ExchangeState and Session::pre_send wrappers (retransmission "
+          "reuses the stored counter and consumes none), back-off arithmetic and Session::rx_timeout_ms ladders.",
+    verus=[],
+    functions=[],
+    trusted=["embassy_time::Instant::now stubbed (time is a universally quantified input)", "RxCtrState window contract is C04's",
+             "RetransEntry values outside mrp.rs are built through a layout-checked mirror struct"],
+    out_of_reach=["delivery order / at-most-once at the application across two nodes, 'if one transmission and one ack get through the call succeeds', "
+                  "timing of wait_tx, re-acknowledging received duplicates (async handle_rx_packet)"],
+    assumptions=[],
+)
+
+PROPS["C10"] = dict(
+    title="A message reaches only its own exchange, and the receive path never wedges",
+    scope="Safety half as step contracts on ExchangeState::is_for_rx, MessageMeta kind predicates, Session::get_exch_for_rx and Session::post_recv over a "
+          "5-slot exchange table built from fields: delivery only to the one live exchange with that id and the complementary role, which alone changes; "
+          "a new exchange only for an admissible initiator message on a non-expired session, in a free slot, all other slots unchanged; the three refusals "
+          "leave the table unchanged; duplicates are refused before any exchange is touched.",
+    verus=[],
+    functions=[],
+    trusted=["uniqueness of (exchange id, side) per session is a stated invariant that post_recv is proved to preserve", "Instant::now stubbed"],
+    out_of_reach=["accept-timeout / orphan sweeps and the dropped-exchange closer (need Matter + TransportRunner; did not close in CBMC)",
+                  "'subsequent traffic keeps flowing', conditional async mutex hand-over, cancellation at await points"],
+    assumptions=[],
+)
+
 
 # ---- harness lists come from lib/harness_index.json (tools/gen_index.py scans kani/*.rs) and the named
 # ---- obligations each harness must discharge from lib/expected.json (./verif expect-update)
